@@ -24,6 +24,9 @@ type gatedCfg struct {
 	PopSkip    int    `json:"pop_skip"`    // popwait: tasks dispatched before the dispatcher is parked at the gate
 	PushDuring bool   `json:"push_during"` // popwait: a Submit arrives while the dispatcher sits at the gate
 	Callback   string `json:"callback"`    // allbusy: what every task does after its gate opens: isrunning | submit | counter | all
+	Variant    string `json:"variant"`     // cstart: fresh | stopped | draining
+	Starters   int    `json:"starters"`    // cstart: number of concurrent Start callers
+	Group      bool   `json:"group"`       // watchers: pool created through a Group
 }
 
 // bigWorkerCounts: worker counts around the default (2*NumCPU); 0 = no WithWorkerCount option (the default).
@@ -57,7 +60,7 @@ func effWorkers(w int) int {
 }
 
 func (g gatedCfg) key() string {
-	return fmt.Sprintf("%s/%s/w%d/c%v/p%d/%s/ft%v/sd%v/rs%v/ps%d/pd%v/cb%s", g.Kind, g.Point, g.Workers, g.Cancel, g.Preload, g.Order, g.FromTask, g.Shutdown, g.Restart, g.PopSkip, g.PushDuring, g.Callback)
+	return fmt.Sprintf("%s/%s/w%d/c%v/p%d/%s/ft%v/sd%v/rs%v/ps%d/pd%v/cb%s", g.Kind, g.Point, g.Workers, g.Cancel, g.Preload, g.Order, g.FromTask, g.Shutdown, g.Restart, g.PopSkip, g.PushDuring, g.Callback) + fmt.Sprintf("/%s/s%d/g%v", g.Variant, g.Starters, g.Group)
 }
 
 // allGated enumerates the configuration space (deterministic order).
@@ -129,6 +132,7 @@ func allGated() []gatedCfg {
 		}
 	}
 	out = append(out, allBusy()...)
+	out = append(out, extraGated()...)
 	return out
 }
 
@@ -157,7 +161,7 @@ func gatedList(rng *rand.Rand, quick bool) []gatedCfg {
 	}
 	seen := map[string]bool{}
 	var out []gatedCfg
-	for _, g := range allBusy() {
+	for _, g := range append(allBusy(), extraGated()...) {
 		seen[g.key()] = true
 		out = append(out, g)
 	}
@@ -170,7 +174,7 @@ func gatedList(rng *rand.Rand, quick bool) []gatedCfg {
 		}
 	}
 	for _, i := range rng.Perm(len(all)) {
-		if len(out) >= 560 {
+		if len(out) >= 620 {
 			break
 		}
 		if g := all[i]; !seen[g.key()] {
@@ -207,6 +211,9 @@ type gatedResult struct {
 // detector gives the verdict (confirm children only); preBlock receives the
 // state observed just before blocking.
 func runGated(cfg gatedCfg, preBlock func(outcome, []string)) (res gatedResult) {
+	if cfg.Kind == "watchers" || cfg.Kind == "cstart" {
+		return runExtra(cfg)
+	}
 	blockMain := preBlock != nil
 	res.Cfg = cfg
 	step := func(f string, a ...any) { res.Steps = append(res.Steps, fmt.Sprintf(f, a...)) }
